@@ -453,6 +453,7 @@ def failing_productions_stay_inside(h: Harness):
         g = b.extract()
         line_spec = gram.spec_sx(spec)
         mind = g.get_min_tree_depth()
+        listed = {k.__name__: [p_.__name__ for p_ in v] for k, v in g.alternatives.items()}
         for d in range(mind, mind + 3):
             for kind in ("grow", "pigrow", "full"):
                 seen = set()
@@ -469,6 +470,12 @@ def failing_productions_stay_inside(h: Harness):
                     h.holds(f"create_genotype[{kind}]", "reachable-program-outside-bounded-language", ["prop_in_language", line_spec, d, parse_sx(p)],
                             f"{kind} at depth {d} on a grammar whose only shallow production can fail produced {p[:160]}, not a well-typed program of depth <= {d}",
                             [sx(line_spec), d, p])
+        # ... and every production is still there to be tried by the NEXT creation: what was reachable before the failures is reachable after
+        now = {k.__name__: [p_.__name__ for p_ in v] for k, v in g.alternatives.items()}
+        if now != listed:
+            h.fail("create_genotype[grow]", "valid-program-unreachable",
+                   f"after creations in which a production failed, the grammar's rules list {now} instead of {listed}: programs using the missing production "
+                   f"can no longer be created from this grammar", [sx(line_spec), "after-failures"])
 
 
 def weighted_string_positions(h: Harness):
@@ -503,12 +510,42 @@ def weighted_string_positions(h: Harness):
                         break
 
 
+def wide_integer_ranges(h: Harness):
+    """integer refinements wider than a thousand values (spans that are no multiple of 1000 included): every value of the range is
+    reachable by some draw of the source, none outside it"""
+    from core import ScriptedSource
+    from geneticengine.grammar.metahandlers.ints import IntRange
+    for lo, hi in ((0, 1000), (0, 1499), (-700, 803), (5, 2051), (0, 999), (10, 3010)):
+        mh = IntRange(lo, hi)
+        span = hi - lo + 1
+        got = set()
+        try:
+            for d1 in range(0, span + 3):
+                got.add(mh.generate(ScriptedSource([d1, d1 % 1000, d1 // 1000]), None, int, None, {}))
+            for d1 in range(0, span // 1000 + 2):
+                for d2 in range(0, 1000, 1):
+                    got.add(mh.generate(ScriptedSource([d1, d2]), None, int, None, {}))
+        except Exception as e:  # noqa: BLE001
+            h.fail("IntRange.generate", "raises", f"IntRange({lo}, {hi}).generate raised {type(e).__name__}: {e}", [lo, hi])
+            continue
+        h.count("wide-integer-ranges")
+        h.seen(f"wide-range:{lo}:{hi}", nontrivial=True)
+        missing = sorted(set(range(lo, hi + 1)) - got)
+        extra = sorted(got - set(range(lo, hi + 1)))
+        if extra:
+            h.fail("IntRange.generate", "reachable-program-outside-bounded-language", f"IntRange({lo}, {hi}) generated {extra[:3]}, outside the range", [lo, hi])
+        elif missing:
+            h.fail("IntRange.generate", "valid-program-unreachable", f"IntRange({lo}, {hi}): {len(missing)} of {span} values are produced by no draw of the source, "
+                   f"e.g. {missing[:3]} (every single draw 0..{span + 2} and every pair of draws tried)", [lo, hi])
+
+
 def run(h: Harness):
     rng = h.rng
     limit = h.n(1500, 8000)
     retargeted(h, limit)
     mirror_languages(h, limit)
     failing_productions_stay_inside(h)
+    wide_integer_ranges(h)
     weighted_string_positions(h)
     for spec in corpus():
         one(h, spec, limit)
